@@ -187,7 +187,7 @@ type mgrScn struct {
 	delay      time.Duration
 	resetup    bool
 	maxAtt     int
-	masterHealth []int // per tick: 0 ok, 1 missing, 2 ping failed, 3 fs readonly, 4 crash recovered
+	masterHealth []int // per tick: 0 ok, 1 missing, 2 ping failed, 3 fs readonly, 4 crash recovered, 5 crash recovered + ping failed, 6 crash recovered + fs readonly
 	masterDown []bool  // per tick: manager cannot reach the master
 	sleeps     []time.Duration
 	replica    []int // per replica: 0 running, 1 stopped, 2 dead
@@ -200,7 +200,7 @@ type mgrScn struct {
 	lock       int // 0 held, 1 not held, 2 disconnected
 	dcsFault   int // 0 none, 1 set maintenance fails, 2 set switch fails, 3 create switch fails(lost)
 	masterKey  int // 0 h1, 1 ghost (unregistered)
-	swFail     int // 0 none, 1 target replica refuses read-only (switch fails), 2 operator aborts during the procedure
+	swFail     int // 0 none, 1 target replica refuses read-only (switch fails), 2 operator aborts during the procedure, 3 abort + failing attempt, 4 old master refuses read-only (rejected inside)
 }
 
 func mgrCfgJSON(c *config.Config) map[string]any {
@@ -333,6 +333,7 @@ func mgrRun(t *testing.T, out *verifh.Out, s mgrScn, dir string, kind string) {
 	case 2:
 		d.Connected = false
 	}
+	abortedNow := false
 	switch s.swFail {
 	case 1:
 		wd.Nodes[hosts[1]].StuckRO = -1
@@ -340,8 +341,21 @@ func mgrRun(t *testing.T, out *verifh.Out, s mgrScn, dir string, kind string) {
 		wd.OnStmt = func(host, op, arg string) {
 			if op == "stop_io" {
 				tree.Del("switch")
+				abortedNow = true
 			}
 		}
+	case 3:
+		// the operator aborts while an attempt is running, and that attempt then fails
+		wd.Nodes[hosts[1]].StuckRO = -1
+		wd.OnStmt = func(host, op, arg string) {
+			if op == "set_ro_super" || op == "set_ro_nosuper" {
+				tree.Del("switch")
+				abortedNow = true
+			}
+		}
+	case 4:
+		// the old master cannot be made read-only: a planned switchover is rejected inside the procedure
+		wd.Nodes[master].StuckRO = -1
 	}
 	// ticks
 	for tick := range s.masterHealth {
@@ -372,6 +386,12 @@ func mgrRun(t *testing.T, out *verifh.Out, s mgrScn, dir string, kind string) {
 		case 3:
 			mh.IsFileSystemReadonly = true
 		case 4:
+			mh.DaemonState.CrashRecovery = true
+		case 5: // came back through crash recovery earlier (the flag stays while that mysqld lives) and is failing now
+			mh.PingOk = false
+			mh.DaemonState.CrashRecovery = true
+		case 6:
+			mh.IsFileSystemReadonly = true
 			mh.DaemonState.CrashRecovery = true
 		}
 		tree.Del("health")
@@ -511,6 +531,14 @@ func mgrRun(t *testing.T, out *verifh.Out, s mgrScn, dir string, kind string) {
 		if tree.GetJSON("switch", &swAfter) {
 			after["run_count"] = swAfter.RunCount
 		}
+		// terminal events of this iteration: the operator's abort, a rejection record written by the daemon
+		after["operator_aborted"] = abortedNow
+		abortedNow = false
+		for _, e := range evs {
+			if e.Kind == "dcs" && (e.Op == "set" || e.Op == "create") && e.Host == "last_rejected_switch" && e.Res == "ok" {
+				after["rejected_written"] = true
+			}
+		}
 		out.Line(map[string]any{"k": "mgrtick", "prop": kind, "cfg": mgrCfgJSON(cfg), "in": in, "obs": obs, "tick": tick, "panic": panicked, "after": after,
 			"maint_mode": maintMode, "sw_fail": s.swFail})
 		if panicked != "" {
@@ -532,10 +560,10 @@ func mgrGen(r *rand.Rand, focus string) mgrScn {
 	for i := 0; i < ticks; i++ {
 		h := 0
 		if r.Intn(3) != 0 {
-			h = 1 + r.Intn(4)
+			h = 1 + r.Intn(6)
 		}
 		s.masterHealth = append(s.masterHealth, h)
-		s.masterDown = append(s.masterDown, r.Intn(3) == 0 || (h == 2 && r.Intn(2) == 0))
+		s.masterDown = append(s.masterDown, r.Intn(3) == 0 || ((h == 2 || h == 5) && r.Intn(2) == 0))
 		s.sleeps = append(s.sleeps, []time.Duration{0, 29 * time.Second, 30 * time.Second, 31 * time.Second, 5 * time.Second}[r.Intn(5)])
 	}
 	for i := 0; i < 3; i++ {
@@ -556,7 +584,7 @@ func mgrGen(r *rand.Rand, focus string) mgrScn {
 		s.swAge = r.Intn(4)
 		s.runCount = r.Intn(3)
 		s.dcsFault = []int{0, 0, 0, 2}[r.Intn(4)]
-		s.swFail = []int{0, 0, 1, 2}[r.Intn(4)]
+		s.swFail = []int{0, 0, 1, 2, 3, 4}[r.Intn(6)]
 		for i := range s.masterHealth {
 			if r.Intn(3) != 0 {
 				s.masterHealth[i], s.masterDown[i] = 0, false
